@@ -10,4 +10,5 @@ import AJ.Model.Run
 import AJ.Model.Full
 import AJ.Model.Flat
 import AJ.Model.Why
+import AJ.Model.Stats
 import AJ.Props
